@@ -59,6 +59,12 @@ def generate(prop, seed, tier):
         iops = ['setup_interp', 'inplace_weights', 'inplace_weights', 'set_weights', 'add_domain', 'mk_domain',
                 'new_finite_factor', 'add_factor', 'mk_factor']
         p_interp = 0.55
+    focus = (prop == 'C16' and not copy_mode and g.random() < 0.2)
+    if focus:
+        # one graph, few nodes, many edge/node additions and removals on it: dense multi-step interplay on a single object
+        gops = ['mk_graph', 'new_node', 'new_edge', 'new_edge', 'new_edge', 'add_edge', 'mk_edge', 'remove_edge', 'remove_edge',
+                'remove_node', 'remove_node', 'set_ext', 'copy', 'add_node']
+        p_interp = 0.0
     for i in range(nops):
         name = g.choice(iops) if g.random() < p_interp else g.choice(gops)
         if copy_mode and i == 0:
@@ -66,7 +72,7 @@ def generate(prop, seed, tier):
         ops.append({'uid': i, 'op': name, 'a': [g.randrange(1 << 16) for _ in range(8)]})
     return {'engine': 'apihist', 'prop': prop, 'seed': seed,
             'env': {'alloc': {'mode': g.choice(['order', 'order', 'reuse', 'seq']), 'seed': seed}},
-            'knobs': {'allow_ext_after_share': g.random() < 0.15, 'start_objs': g.randrange(0, 3)},
+            'knobs': {'allow_ext_after_share': g.random() < 0.15, 'start_objs': g.randrange(0, 3), 'focus': focus},
             'ops': ops}
 
 
@@ -120,6 +126,8 @@ class Machine:
         idx = [i for i, o in enumerate(self.objs) if o['kind'] in kinds]
         if not idx:
             return None
+        if self.case['knobs'].get('focus') and c % 8 != 0:
+            return idx[0]
         return idx[c % len(idx)]
 
     def new_obj(self, kind, real, model):
@@ -416,7 +424,12 @@ class Machine:
                 cands = [n for n in self.objs[gi]['real'].nodes() if n.label.name == lab]
             if not cands:
                 cands = [n for n in self.nodes if n.label.name == lab]
-            if cands and a[(k + 1) % len(a)] % 5 != 0:
+            prev = [n for n in out if n.label.name == lab]
+            if prev and a[(k + 5) % len(a)] % 3 == 0:
+                # the same node attached twice
+                out.append(prev[-1])
+                self.c.inc('probe.repeated-attachment')
+            elif cands and (a[(k + 1) % len(a)] % 5 != 0 or self.case['knobs'].get('focus')):
                 out.append(cands[a[(k + 2) % len(a)] % len(cands)])
             else:
                 n = F.Node(F.NodeLabel(lab), id=None if a[(k + 3) % len(a)] % 2 else M.NID[a[(k + 4) % len(a)] % len(M.NID)])
@@ -489,6 +502,13 @@ class Machine:
         if gi is None:
             return None
         n = self.pick_node(a[1], gi, mode=[0, 0, 0, 1, 2][a[2] % 5])
+        recent = getattr(self, 'recent_nodes', None)
+        if recent and recent[1] and a[3] % 3 != 2 and recent[0] < len(self.objs) and self.objs[recent[0]].get('real') is not None \
+                and self.objs[recent[0]]['kind'] in ('Graph', 'FactorGraph'):
+            # a node of the edge removed most recently, in the graph it was removed from (it may still be attached elsewhere)
+            gi = recent[0]
+            n = recent[1][a[1] % len(recent[1])]
+            self.c.inc('probe.remove_node-of-recently-removed-edge')
         if n is None:
             return None
         m = self.objs[gi]['model']
@@ -592,7 +612,12 @@ class Machine:
             return None
         g = self.objs[gi]['real']
         es = list(g.edges())
-        if es and a[2] % 4 != 0:
+        reps = [x for x in es if len({id(v) for v in x.nodes}) < len(x.nodes)]
+        if reps and a[3] % 2 == 0:
+            # prefer an edge that is attached to one node twice
+            e = reps[a[1] % len(reps)]
+            self.c.inc('probe.remove_edge-with-repeated-attachment')
+        elif es and a[2] % 4 != 0:
             e = es[a[1] % len(es)]
         elif self.edges:
             e = self.edges[a[1] % len(self.edges)]
@@ -603,6 +628,8 @@ class Machine:
         same = se in m['edges']
         idpres = any(x[0] == se[0] and type(x[0]) is type(se[0]) for x in m['edges'])
         _, exc = self.call(g.remove_edge, e)
+        if exc is None:
+            self.recent_nodes = (gi, list(e.nodes))
         if not idpres:
             return (gi, exc, 'raise', False)
         if not same:
